@@ -1,7 +1,7 @@
 """Generators of TypeSpecs: seeded random (deep, recursive) and bounded-exhaustive (small)."""
 import itertools
 
-from vf.spec import (Ann, AnyT, Coll, EnumT, F, Lit, MapT, NewT, ObjectT, Prim, Ref, SubPrim, T, Tup, Union_, opt, strip)
+from vf.spec import (STD, Ann, AnyT, Coll, EnumT, F, Lit, MapT, NewT, ObjectT, Prim, Ref, Std, SubPrim, T, Tup, Union_, opt, strip)
 
 PRIMS = ["none", "bool", "int", "float", "str"]
 NUM_CONS = [{"min": 0}, {"max": 10}, {"exc_min": 0}, {"exc_max": 10}, {"mult_of": 3}, {"min": 1, "max": 5}, {"min": 0, "mult_of": 2}]
@@ -13,7 +13,8 @@ DEFAULTS = {"none": ["None"], "bool": ["False", "True"], "int": ["0", "7"], "flo
 
 
 class Gen:
-    def __init__(self, rng, max_depth=4, feats=None, recursion=True):
+    def __init__(self, rng, max_depth=4, feats=None, recursion=True, std=False):
+        self.std = std  # also draw standard-library converted types (UUID, date, ...)
         self.rng = rng
         self.max_depth = max_depth
         self.n = 0
@@ -117,6 +118,8 @@ class Gen:
         if depth >= self.max_depth:
             return self.prim()
         k = r.random()
+        if self.std and r.random() < 0.12:
+            return Std(r.choice(sorted(STD)))
         if k < 0.27:
             return self.prim()
         if k < 0.30:
@@ -163,7 +166,7 @@ class Gen:
             return MapT("dict", Prim("str"), ref)
         return opt(Coll("vartuple", ref))
 
-    def object(self, depth=0, scope=(), kind=None, nfields=None, allow_flatten=True) -> ObjectT:
+    def object(self, depth=0, scope=(), kind=None, nfields=None, allow_flatten=True, allow_aggregates=True) -> ObjectT:
         r = self.rng
         kind = kind or r.choice(["dataclass", "dataclass", "dataclass", "namedtuple", "typeddict"])
         name = self.fresh({"dataclass": "D", "namedtuple": "NT", "typeddict": "TD"}[kind])
@@ -177,19 +180,20 @@ class Gen:
             f = F(fname, Prim("int"))
             k = r.random()
             agg = kind == "dataclass" and depth + 1 < self.max_depth
+            agg_props = agg and allow_aggregates  # a flattened object receives nothing for its own properties fields
             if agg and allow_flatten and k < 0.08 and self.on("flatten", 1):
-                f.t = self.object(depth + 1, scope2, kind="dataclass", allow_flatten=r.random() < 0.3)
+                f.t = self.object(depth + 1, scope2, kind="dataclass", allow_flatten=r.random() < 0.3, allow_aggregates=False)
                 f.flatten = True
                 if r.random() < 0.2:
                     f.factory = None  # required flattened
-            elif agg and k < 0.13 and self.on("pattern", 1) and len(used_patterns) < len(KEY_PATTERNS):
+            elif agg_props and k < 0.13 and self.on("pattern", 1) and len(used_patterns) < len(KEY_PATTERNS):
                 pat = r.choice([p for p in KEY_PATTERNS if p not in used_patterns])
                 used_patterns.add(pat)
                 f.t = MapT(r.choice(["dict", "mapping"]), Prim("str"), self.type(depth + 2, scope2))
                 f.pattern = pat
                 if r.random() < 0.6:
                     f.factory = "dict"
-            elif agg and k < 0.17 and not has_additional and self.on("additional", 1):
+            elif agg_props and k < 0.17 and not has_additional and self.on("additional", 1):
                 has_additional = True
                 f.t = MapT(r.choice(["dict", "mapping"]), Prim("str"), self.type(depth + 2, scope2))
                 f.additional = True
